@@ -6,6 +6,7 @@ package explore
 
 import (
 	"bufio"
+	"bytes"
 	"encoding/json"
 	"fmt"
 	"os"
@@ -59,6 +60,11 @@ type Harness struct {
 	AllowLeak bool
 	// MaxSteps overrides the per-execution cap on scheduling points (long sequential histories).
 	MaxSteps int
+	// GlobalState: the code under test keeps package-level state that outlives an execution (caches, pools).
+	// A violation may leave that state corrupted, so it is confirmed by replaying its choice vector in FRESH
+	// processes instead of in this one; a violation that does not reproduce there is dropped (counted), never
+	// reported.
+	GlobalState bool
 }
 
 // Stats aggregates a (sub)tree exploration.
@@ -75,6 +81,8 @@ type Stats struct {
 	Sample     map[string][]int `json:"sample"`           // one choice vector per outcome (first few)
 	Broken     string           `json:"broken,omitempty"` // machinery failure (nondeterminism)
 	Truncated  bool             `json:"truncated,omitempty"`
+	// Unconfirmed counts violations of GlobalState harnesses that did not reproduce in a fresh process (dropped)
+	Unconfirmed int64 `json:"unconfirmed,omitempty"`
 }
 
 func newStats() *Stats {
@@ -84,6 +92,7 @@ func newStats() *Stats {
 func (s *Stats) merge(o *Stats) {
 	s.Execs += o.Execs
 	s.Steps += o.Steps
+	s.Unconfirmed += o.Unconfirmed
 	if o.MaxSteps > s.MaxSteps {
 		s.MaxSteps = o.MaxSteps
 	}
@@ -269,6 +278,16 @@ func record(st *Stats, h *Harness, r runResult, prefix []int) {
 		if known {
 			continue
 		}
+		if h.GlobalState {
+			if confirmFresh(h, v, r.x.TraceHash) {
+				v.Stable = true
+				v.Trace = r.x.Trace
+				st.addViol(v)
+			} else {
+				st.Unconfirmed++
+			}
+			continue
+		}
 		// confirm: the same choice vector must reproduce the same violation and the same trace hash
 		v.Stable = true
 		for k := 0; k < 4; k++ {
@@ -293,6 +312,56 @@ func record(st *Stats, h *Harness, r runResult, prefix []int) {
 		}
 		st.addViol(v)
 	}
+}
+
+// confirmFresh replays a choice vector twice, each time in a new process (sub-command "confirm"), and
+// reports whether both runs show the same kind of violation at the same site with the same trace hash.
+func confirmFresh(h *Harness, v Violation, hash uint64) bool {
+	cj, _ := json.Marshal(v.Choices)
+	for k := 0; k < 2; k++ {
+		cmd := exec.Command(os.Args[0], "confirm", h.Name, fmt.Sprint(CurrentArg), string(cj))
+		cmd.Env = append(os.Environ(), "GOMAXPROCS=1")
+		out, err := cmd.Output()
+		if err != nil {
+			return false
+		}
+		var got struct {
+			Hash  uint64   `json:"hash"`
+			Kinds []string `json:"kinds"`
+		}
+		if json.Unmarshal(bytes.TrimSpace(out), &got) != nil || got.Hash != hash {
+			return false
+		}
+		found := false
+		for _, k := range got.Kinds {
+			if k == v.Kind+"@"+v.Site {
+				found = true
+			}
+		}
+		if !found {
+			return false
+		}
+	}
+	return true
+}
+
+// ConfirmMain is the "confirm" sub-command: argv = confirm <harness> <arg> <choices json>.
+func ConfirmMain(args []string) {
+	h := registry[args[0]]
+	if h == nil {
+		fmt.Println("{}")
+		return
+	}
+	fmt.Sscan(args[1], &CurrentArg)
+	var choices []int
+	_ = json.Unmarshal([]byte(args[2]), &choices)
+	r := runOnce(h, choices, false)
+	var kinds []string
+	for _, v := range r.viol {
+		kinds = append(kinds, v.Kind+"@"+v.Site)
+	}
+	b, _ := json.Marshal(map[string]interface{}{"hash": r.x.TraceHash, "kinds": kinds})
+	fmt.Println(string(b))
 }
 
 // subtree explores prefix and everything below it, depth first.
